@@ -154,7 +154,9 @@ class Specialiser:
         if assume is not None and _u(e) == assume[0] and assume[1] == "eq":
             return assume[2]
         if isinstance(e, ast.Name):
-            return env.get(e.id, _UNKNOWN)
+            if e.id in env:
+                return env[e.id]
+            return self.table_of(e, env)
         t = self.table_of(e, env) if isinstance(e, (ast.Attribute,)) else _UNKNOWN
         if t is not _UNKNOWN:
             return t
@@ -254,6 +256,22 @@ class Specialiser:
                 if isinstance(n.func, ast.Name):
                     sp._call_positions.add(n.func.id)
                 n = self.generic_visit(n)
+                # f(*TABLE[key]) with a literal table row: the row's constants become the positional arguments
+                if any(isinstance(a, ast.Starred) for a in n.args):
+                    new_args, ok_ = [], True
+                    for a in n.args:
+                        if isinstance(a, ast.Starred):
+                            v = sp.value(a.value, env, assume)
+                            if isinstance(v, tuple) and all(x is None or isinstance(x, (str, int, float, bool)) for x in v):
+                                new_args += [ast.Constant(value=x) for x in v]
+                            else:
+                                ok_ = False
+                                break
+                        else:
+                            new_args.append(a)
+                    if ok_:
+                        sp.changed = True
+                        n = ast.copy_location(ast.Call(func=n.func, args=new_args, keywords=n.keywords), n)
                 # getattr(obj, <known str>) -> obj.<name>
                 if isinstance(n.func, ast.Name) and n.func.id == "getattr" and len(n.args) == 2 and not n.keywords:
                     nm = sp.value(n.args[1], env, assume)
@@ -547,6 +565,13 @@ class Specialiser:
             else:
                 self._kill([s], env)
             s2 = s
+            if isinstance(s, (ast.Expr, ast.Assign, ast.Return)) and getattr(s, "value", None) is not None and \
+                    any(isinstance(x, ast.Starred) for x in ast.walk(s.value)):
+                try:
+                    s2 = copy.copy(s)
+                    s2.value = self.residual(s.value, env, None)
+                except GiveUp:
+                    s2 = s
             for fld in ("body", "orelse", "finalbody"):
                 blk = getattr(s, fld, None)
                 if isinstance(blk, list) and blk and isinstance(blk[0], ast.stmt) and not isinstance(s, (ast.FunctionDef, ast.AsyncFunctionDef, ast.ClassDef)):
